@@ -206,7 +206,7 @@ def build_node(ns: dict, path: str, built: Built, *, src_toggle=[0]):
             wait_for=wait,
         )
     elif k == "int":
-        rt.KIND[fid] = "int"
+        rt.KIND[fid] = "int-async" if ns.get("async") else "int"
         rt.BEH[fid] = _mk_int_behaviour(ns)
         outs = ns["outs"]
         output_name = outs[0] if len(outs) == 1 else tuple(outs)
